@@ -186,7 +186,7 @@ def check(ctx, case):
     simfile.open = recording_open  # dir.py looks simfile.open up at call time
     try:
         mode = case["mode"]
-        opts_list = [{"strict": True}, {"strict": False}] if mode != "utf16" else [{"encoding": "utf-16"}, {}]
+        opts_list = [{"strict": True}, {"strict": False}, {}] if mode != "utf16" else [{"encoding": "utf-16"}, {}]
         ctx.feat(case["fs"])
         for path, d, rel in t.dirs:
             listing = t.fs.listdir(path)
